@@ -299,7 +299,9 @@ def real_parser_family():
     import itertools
     M = load(SM)
     nums = ['0', '1', '2', '10', '9', '-1', '-0.5', '-.5', '0.5', '3', '3.0',
-            '2.99', '3.01', '1e2', '100', '20', '19.999', '20.001']
+            '2.99', '3.01', '1e2', '100', '20', '19.999', '20.001',
+            '4294967296', '4294967295', '9007199254740992',
+            '9007199254740991', '1e-9', '0.000000001001']
     ws = [(' ', ''), ('  ', ''), (' ', ' '), ('\t', '  ')]
 
     def spec_text(tokens, w):
